@@ -1,9 +1,11 @@
 import Sudachi.Proofs.OovLattice
+import Sudachi.Proofs.OovIter
+import Sudachi.Proofs.OovRead
 /-!
 # C13 — Unknown-word candidates follow the character-class definition
 
 Model: `Sudachi/Model/Oov.lean` (+ the definition-file readers in `Model/OovIO.lean`); lemmas in `Proofs/Oov.lean`,
-`Proofs/OovLattice.lean`.  Character
+`Proofs/OovLattice.lean`, `Proofs/OovIter.lean` (class iteration, per-class limit, failing runs), `Proofs/OovRead.lean` (readers).  Character
 classes are the C17 model.  Quantifiers: every list of per-character class sets (`cats`), every
 provider configuration, every offset / created mask.
 -/
@@ -186,7 +188,7 @@ theorem mecab_candidate_fields (cfg : MecabCfg) (n offset charLen created ct : N
 /-- non-vacuity: ALPHA `1 1 2` with one line, text `ab` + hiragana: at offset 0 (run 2) the grouped
 candidate and the one-character candidate (the budget shrinks by one because of grouping). -/
 example :
-    mecabProvide ⟨[(32, ⟨32, true, true, 2⟩)], [(32, [⟨1, 2, 100, 0⟩])]⟩ ⟨[97, 98, 12354], [32, 32, 64], [2, 1, 1], [true, false, true]⟩ 0 0
+    mecabProvide ⟨[(32, ⟨32, true, true, 2⟩)], [(32, [⟨1, 2, 100, 0⟩])], false⟩ ⟨[97, 98, 12354], [32, 32, 64], [2, 1, 1], [true, false, true]⟩ 0 0
       = .ok [⟨0, 2, 1, 2, 100, true, 0⟩, ⟨0, 1, 1, 2, 100, true, 0⟩] := by
   decide
 
@@ -246,10 +248,10 @@ theorem every_position_has_candidate (ps : List Provider) (lex : List Word) (buf
    fun cfg hl k => stepAt_no_disconnect ps cfg lex buf offset hl k⟩
 
 /-- non-vacuity: MeCab first, Simple last, on the D11 witness; and without a fallback the loop can fail. -/
-example : ([Provider.mecab ⟨[], []⟩, Provider.simple ⟨0, 0, 0, 3⟩]).getLast? = some (.simple ⟨0, 0, 0, 3⟩) ∧
-    stepAt [Provider.mecab ⟨[], []⟩, Provider.simple ⟨0, 0, 0, 3⟩] [] ⟨[128077, 127995, 28450], [1, 2147483647, 4], [1, 2, 1], [true, false, true]⟩ 1
+example : ([Provider.mecab ⟨[], [], false⟩, Provider.simple ⟨0, 0, 0, 3⟩]).getLast? = some (.simple ⟨0, 0, 0, 3⟩) ∧
+    stepAt [Provider.mecab ⟨[], [], false⟩, Provider.simple ⟨0, 0, 0, 3⟩] [] ⟨[128077, 127995, 28450], [1, 2147483647, 4], [1, 2, 1], [true, false, true]⟩ 1
       = .ok [⟨1, 2, 0, 0, 0, true, 3⟩] ∧
-    stepAt [Provider.mecab ⟨[], []⟩] [] ⟨[128077, 127995, 28450], [1, 2147483647, 4], [1, 2, 1], [true, false, true]⟩ 1
+    stepAt [Provider.mecab ⟨[], [], false⟩] [] ⟨[128077, 127995, 28450], [1, 2147483647, 4], [1, 2, 1], [true, false, true]⟩ 1
       = .err "Disconnect" := by decide
 
 /-! ## clause "OOV morphemes report is_oov, dictionary -1, the configured part of speech and the normalised
@@ -374,7 +376,7 @@ example : (⟨[128077, 127995, 28450], [1, 2147483647, 4], [2, 1, 1], [true, fal
     | 2, h => cases h; decide
     | n + 3, h => simp at h⟩
 
-example : buildLattice [Provider.mecab ⟨[], []⟩, Provider.simple ⟨0, 0, 0, 3⟩] []
+example : buildLattice [Provider.mecab ⟨[], [], false⟩, Provider.simple ⟨0, 0, 0, 3⟩] []
     ⟨[128077, 127995, 28450], [1, 2147483647, 4], [2, 1, 1], [true, false, true]⟩
       = .ok [⟨0, 2, 0, 0, 0, true, 3⟩, ⟨2, 3, 0, 0, 0, true, 3⟩] := by decide
 
@@ -554,7 +556,7 @@ right after the joiner.  (Had the builder tested `can_bow`, the loop would have 
 `Ω` inserted instead — the mutation the harness is required to catch.) -/
 theorem providers_asked_where_can_bow_is_false_counterexample :
     let buf : Buf := ⟨[97, 8205, 937], [32, 3221225471, 512], [2, 1, 1], [true, false, false]⟩
-    let mecab : MecabCfg := ⟨[(32, ⟨32, true, true, 0⟩), (512, ⟨512, true, true, 0⟩)], [(32, [⟨1, 1, 100, 0⟩]), (512, [⟨2, 2, 200, 1⟩])]⟩
+    let mecab : MecabCfg := ⟨[(32, ⟨32, true, true, 0⟩), (512, ⟨512, true, true, 0⟩)], [(32, [⟨1, 1, 100, 0⟩]), (512, [⟨2, 2, 200, 1⟩])], false⟩
     let ps := [Provider.mecab mecab, Provider.simple ⟨5, 5, 7000, 3⟩]
     bowTableFix buf.cats = buf.bow ∧ bowTable buf.cats = buf.bow ∧
     buf.bow[2]? = some false ∧
@@ -573,7 +575,7 @@ candidates (`ALPHA 1 0 1`) position 1 of `ab` is reached and the providers are a
 character that is reached (`a` U+200D with `ALPHA 1 0 1`) the loop is skipped and the LAST provider is called once with
 an empty mask — here the fallback, which reaches to the end of the text. -/
 theorem letter_continuation_and_joiner_example :
-    let mecab : MecabCfg := ⟨[(32, ⟨32, true, false, 1⟩)], [(32, [⟨1, 1, 100, 0⟩])]⟩
+    let mecab : MecabCfg := ⟨[(32, ⟨32, true, false, 1⟩)], [(32, [⟨1, 1, 100, 0⟩])], false⟩
     let ps := [Provider.mecab mecab, Provider.simple ⟨5, 5, 7000, 3⟩]
     stepAtT ps [] ⟨[97, 98], [32, 32], [2, 1], [true, false]⟩ 1 =
       .ok ⟨1, true, [], [⟨0, 1, 0, 0, [⟨1, 2, 1, 1, 100, true, 0⟩]⟩, ⟨1, 1, 1, 1, []⟩], none, [⟨1, 2, 1, 1, 100, true, 0⟩]⟩ ∧
@@ -591,8 +593,8 @@ open Oov
 /-- **Full statement for the named single classes** (was trusted): the iteration over the classes of a character
 (`flagsIter`, the transcription of bitflags 2.5 `Flags::iter`, whose elements are the `ct` of `mecab_candidates_spec`)
 visits DEFAULT … USER4 (bits 0–14), NOOOVBOW (bit 30) and NOOOVBOW2 (bit 31) exactly when the character has that
-class — for every class set.  (The composite key `ALL`, visited after the single classes when the character has all
-of them, stays validated by correspondence only.) -/
+class — for every class set.  (Order of the visit, the composite key `ALL` and the left-over value: `class_iteration_order`
+below.) -/
 theorem class_iteration_visits_named_classes (cat i : Nat) (hi : i < 15 ∨ i = 30 ∨ i = 31) :
     2 ^ i ∈ flagsIter cat ↔ cat.testBit i = true :=
   flagsIter_named_bit cat i hi
@@ -601,6 +603,236 @@ theorem class_iteration_visits_named_classes (cat i : Nat) (hi : i < 15 ∨ i = 
 NOOOVBOW2 character (the joiner) visits the fifteen classes, NOOOVBOW2 and then `ALL` -/
 example : flagsIter 68 = [4, 64] ∧
     flagsIter 3221225471 = [1, 2, 4, 8, 16, 32, 64, 128, 256, 512, 1024, 2048, 4096, 8192, 16384, 2147483648, 1073741823] := by
+  decide
+
+end C13
+
+namespace C13
+open Oov
+
+/-! ## third round: the class iteration completely, the per-class length limit, the readers, failing runs -/
+
+/-- **`CategoryType::iter` in closed form — order, composite key, left-over value** (were "by correspondence only").
+For every 32-bit class set the iteration yields: the named single classes the set contains in ASCENDING BIT INDEX
+(DEFAULT = bit 0 … USER4 = bit 14, NOOOVBOW = 30, NOOOVBOW2 = 31); then the composite key `ALL` iff the set contains all
+thirty bits of `ALL`; and if it does not, the bits 15..29 that are set — they belong to no named single class and can
+only come from a hex literal in char.def — as ONE final value.  This is the list of `ct` the MeCab provider visits, in
+the order it visits them (`mecab_candidates_in_class_order`). -/
+theorem class_iteration_order (cat : Nat) (h32 : cat < 2 ^ 32) :
+    flagsIter cat =
+      ((List.range 32).filter (fun i => cat.testBit i && (i < 15 || i == 30 || i == 31))).map (2 ^ ·) ++
+      (if cat &&& ALL = ALL then [ALL] else if cat &&& unnamedMask = 0 then [] else [cat &&& unnamedMask]) := by
+  rw [flagsIter_eq cat h32, namedBits_ascending, List.filter_filter]
+
+/-- non-vacuity: a two-class set, a class-ALL mark, a set with an unnamed bit (KANJI|0x8000), only unnamed bits -/
+example : (68 : Nat) < 2 ^ 32 ∧ flagsIter 68 = [4, 64] ∧ flagsIter (4 ||| 32768) = [4, 32768] ∧ flagsIter 98304 = [98304] ∧
+    flagsIter 2147483647 = [1, 2, 4, 8, 16, 32, 64, 128, 256, 512, 1024, 2048, 4096, 8192, 16384, 1073741824, 1073741823] := by
+  decide
+
+/-- **The candidates come class by class, in that order**: inside the text the MeCab provider returns exactly the
+concatenation, over the classes of the character in iteration order, of the candidates of each class. -/
+theorem mecab_candidates_in_class_order (cfg : MecabCfg) (buf : Buf) (o created charLen cat : Nat)
+    (h1 : buf.cont[o]? = some charLen) (h2 : buf.cats[o]? = some cat) (h0 : charLen ≠ 0) :
+    mecabProvide cfg buf o created = .ok ((flagsIter cat).flatMap (mecabClass cfg buf.chars.length o charLen created)) := by
+  simp [mecabProvide, h1, h2, h0]
+
+/-- **Classes without a behaviour line: no candidates, no panic** (`None => continue`).  (1) Inside the text the provider
+always answers `Ok` — for every class set, named or not; (2) a visited class without a `CLASS i g n` line contributes
+nothing — in particular the left-over value of `class_iteration_order`, for which no line can be written by name;
+(3) if no visited class has a line the answer is `Ok` without nodes. -/
+theorem classes_without_behaviour_line (cfg : MecabCfg) (buf : Buf) (o created : Nat) :
+    (o < buf.cont.length → o < buf.cats.length → ∃ nodes, mecabProvide cfg buf o created = .ok nodes) ∧
+    (∀ n cl ct, findKey ct cfg.cats = none → mecabClass cfg n o cl created ct = []) ∧
+    (∀ charLen cat, buf.cont[o]? = some charLen → buf.cats[o]? = some cat →
+      (∀ ct ∈ flagsIter cat, findKey ct cfg.cats = none) → mecabProvide cfg buf o created = .ok []) :=
+  ⟨fun h1 h2 => mecabProvide_total cfg buf o created h1 h2,
+   fun n cl ct h => mecabClass_no_line cfg n o cl created ct h,
+   fun charLen cat h1 h2 hno => mecabProvide_no_lines cfg buf o created charLen cat h1 h2 hno⟩
+
+/-- non-vacuity: KANJI|0x8000 with a line for HIRAGANA only — the provider is asked inside the text and returns nothing -/
+example : mecabProvide ⟨[(64, ⟨64, true, true, 2⟩)], [(64, [⟨1, 1, 5, 0⟩])], false⟩ ⟨[28450], [32772], [1], [true]⟩ 0 0 = .ok [] ∧
+    (∀ ct ∈ flagsIter 32772, findKey ct [(64, (⟨64, true, true, 2⟩ : CatInfo))] = none) := by decide
+
+/-- **The 1..n length limit is per class** (task (1); seeded change C13c moved it out of the per-class loop).
+(a) The candidates of a class are a function of that class's OWN behaviour line and unknown-word lines: two
+configurations that agree on them give the same candidates for the class, whatever they say about the other classes of
+the character (GROUP of a lower-bit class included).  (b) A class that does NOT group and is invoked gets, for every
+unknown-word line, the candidate spanning the whole run when LENGTH ≥ run and the run stays inside the text.  (c) A class
+that groups gets the run-length candidate once (the grouped one); its 1..n candidates are strictly shorter. -/
+theorem mecab_length_limit_is_per_class (cfg : MecabCfg) (n o cl created ct : Nat) :
+    (∀ cfg' : MecabCfg, findKey ct cfg.cats = findKey ct cfg'.cats →
+      (∀ ci, findKey ct cfg.cats = some ci → findKey ci.ctype cfg.oovs = findKey ci.ctype cfg'.oovs) →
+      cfg.stopAtEnd = cfg'.stopAtEnd →
+      mecabClass cfg n o cl created ct = mecabClass cfg' n o cl created ct) ∧
+    (∀ ci oovs d, findKey ct cfg.cats = some ci → (ci.invoke = true ∨ created = 0) → ci.group = false →
+      findKey ci.ctype cfg.oovs = some oovs → d ∈ oovs → 1 ≤ cl → cl ≤ ci.length → o + cl ≤ n →
+      mkNode o (o + cl) d ∈ mecabClass cfg n o cl created ct) ∧
+    (∀ ci x, findKey ct cfg.cats = some ci → ci.group = true → 1 ≤ cl → x ∈ mecabClass cfg n o cl created ct →
+      x.b = o ∧ (x.e = o + cl ∨ x.e < o + cl)) :=
+  ⟨fun cfg' h1 h2 h3 => mecabClass_congr cfg cfg' n o cl created ct h1 h2 h3,
+   fun ci oovs d h1 h2 h3 h4 h5 h6 h7 h8 => mem_mecabClass_full_run cfg n o cl created ct ci oovs d h1 h2 h3 h4 h5 h6 h7 h8,
+   fun ci x h1 h2 h3 h4 => mecabClass_grouped_lengths cfg n o cl created ct ci x h1 h2 h3 h4⟩
+
+/-- the witness of the seeded change, kernel-checked: `HIRAGANA 0 1 2`, `KATAKANA 1 0 2`, U+30FC = HIRAGANA|KATAKANA, text
+`ーー京`.  At offset 0 (run 2) the four prescribed candidates — HIRAGANA grouped `[0,2)` and `[0,1)` (its budget is run-1),
+KATAKANA `[0,1)` AND `[0,2)` (its own budget is the run) —, at offset 1 (run 1) HIRAGANA grouped and KATAKANA `[1,2)`. -/
+theorem mecab_mixed_group_example :
+    let cfg : MecabCfg := ⟨[(64, ⟨64, false, true, 2⟩), (128, ⟨128, true, false, 2⟩), (4, ⟨4, false, false, 1⟩)],
+      [(64, [⟨1, 1, 20000, 0⟩]), (128, [⟨2, 3, 100, 5⟩]), (4, [⟨4, 4, 300, 0⟩])], false⟩
+    let buf : Buf := ⟨[12540, 12540, 20140], [192, 192, 4], [2, 1, 1], [true, true, true]⟩
+    mecabProvide cfg buf 0 0 = .ok [⟨0, 2, 1, 1, 20000, true, 0⟩, ⟨0, 1, 1, 1, 20000, true, 0⟩,
+                                    ⟨0, 1, 2, 3, 100, true, 5⟩, ⟨0, 2, 2, 3, 100, true, 5⟩] ∧
+    mecabProvide cfg buf 1 0 = .ok [⟨1, 2, 1, 1, 20000, true, 0⟩, ⟨1, 2, 2, 3, 100, true, 5⟩] ∧
+    fillCatContinuityForward buf.cats = buf.cont := by
+  refine ⟨by decide, by decide, ?_⟩
+  simp [fillCatContinuityForward, scan, countdown]
+
+/-! ### the end of the text: candidates pushed more than once (finding) and the repair -/
+
+/-- **Finding (pinned code)**: at the end of the text `char_distance` saturates, so `for i in 1..=LENGTH` keeps meeting the
+test `sublength > llength` with the SAME `sublength` and pushes the last candidate again for every further `i`.  Witness
+with the shipped line `KANJI 0 0 2` on a text that ends in a kanji (here the text `京`): the one-character candidate is
+returned twice (with LENGTH = n, n times; with a large LENGTH the call does not return in reasonable time).  The repaired
+loop (`stopAtEnd`, test `sublength > llength || sublength < i`) returns it once. -/
+theorem mecab_text_end_duplicates_counterexample :
+    mecabProvide ⟨[(4, ⟨4, false, false, 2⟩)], [(4, [⟨2, 2, 14657, 0⟩])], false⟩ ⟨[20140], [4], [1], [true]⟩ 0 0 =
+      .ok [⟨0, 1, 2, 2, 14657, true, 0⟩, ⟨0, 1, 2, 2, 14657, true, 0⟩] ∧
+    mecabProvide ⟨[(4, ⟨4, false, false, 2⟩)], [(4, [⟨2, 2, 14657, 0⟩])], true⟩ ⟨[20140], [4], [1], [true]⟩ 0 0 =
+      .ok [⟨0, 1, 2, 2, 14657, true, 0⟩] := by
+  decide
+
+/-- **Full statement for the repaired loop**: the candidates of 1..n characters are, for every text, offset, budget and
+LENGTH, exactly one candidate per unknown-word line for each length `i = 1 … min(LENGTH, budget, characters left)`, in
+increasing order — "candidates of 1..n characters within the run", each once.  (The SET of candidates is the same for
+both variants: `mecab_candidates_spec`, whose side condition for the repaired loop only excludes lengths the text does
+not have, i.e. candidates that repeat a shorter one.) -/
+theorem mecab_fix_each_length_once (oovs : List OovDef) (o n budget length : Nat) :
+    lenLoop true oovs o n budget length 1 =
+      (List.range' 1 (min length (min budget (n - o)))).flatMap (fun i => oovs.map (mkNode o (o + i))) := by
+  have := lenLoop_stop_eq oovs o n budget length 1 (Nat.le_refl 1)
+  simpa using this
+
+/-! ### the definition-file readers (were "transcribed, validated by correspondence only") -/
+
+/-- **`read_character_property` is total and equals the declarative description of char.def's behaviour lines.**
+Every line is, on its own (`classifyProp`): skipped (blank, `#…`, a `0x…` range line), malformed (fewer than four
+white-space separated columns, a class expression that is not names / hex literals joined by `|`, a LENGTH that is not
+a `u32`), or one entry `CLASS INVOKE GROUP LENGTH` (flags set iff the column is exactly `1`, further columns ignored).
+The reader returns a table **iff** no line is malformed and no class key is defined twice, and the table is then exactly
+the entries in file order; otherwise it returns `Err` (nothing else can happen: the function is total).  `ws` is what
+`str::trim` / `split_whitespace` treat as white space: the statement holds for every such predicate; the driver runs the
+reader on the DECODED file (`linesU`: a line that is not UTF-8 is `Err`) with Unicode `White_Space` (`isWsU`). -/
+theorem read_character_property_spec (ws : Char → Bool) (lines : List (List Char)) (T : List (Nat × CatInfo)) :
+    readCharPropW ws lines [] = some T ↔
+      (∀ l ∈ lines, classifyProp ws l ≠ .bad) ∧ T = lines.filterMap (entryOfProp ws) ∧ (T.map (·.1)).Nodup := by
+  have := readCharProp_iff ws lines [] T (by simp)
+  simpa using this
+
+/-- **`read_oov` is total and equals the declarative description of unk.def.**  Every line is, on its own
+(`classifyUnk`): skipped (blank, `#…`), malformed, or one entry `CLASS,LEFT,RIGHT,COST,POS×6[,…]`.  (1) The reader returns
+a table iff no line is malformed, and then the table is the entries pushed in file order; (2) in that table the class keys
+are pairwise different and every key holds the definitions of exactly the lines of that key, in file order (a key without
+line is absent) — the `oovs` of `mecab_candidates_spec`; (3) an accepted line names a class that has a behaviour line, a
+part of speech of the dictionary, and connection ids inside the matrix (strictly inside after the repair of D15b). -/
+theorem read_oov_spec (ws : Char → Bool) (ge : Bool) (cats : List (Nat × CatInfo)) (pos : List (List (List Char))) (nl nr : Nat)
+    (lines : List (List Char)) (T : List (Nat × List OovDef)) :
+    (readOov ws ge cats pos nl nr lines [] = some T ↔
+      (∀ l ∈ lines, classifyUnk ws ge cats pos nl nr l ≠ .bad) ∧
+      T = pushAll (lines.filterMap (entryOfUnk ws ge cats pos nl nr)) []) ∧
+    (readOov ws ge cats pos nl nr lines [] = some T →
+      (T.map (·.1)).Nodup ∧
+      ∀ k, findKey k T =
+        (if (lines.filterMap (entryOfUnk ws ge cats pos nl nr)).filter (fun e => e.1 == k) = [] then none
+         else some (((lines.filterMap (entryOfUnk ws ge cats pos nl nr)).filter (fun e => e.1 == k)).map (·.2)))) ∧
+    (∀ l k d, classifyUnk ws ge cats pos nl nr l = .entry k d →
+      (findKey k cats).isSome = true ∧ d.l ≤ nl ∧ d.r ≤ nr ∧ (ge = true → d.l < nl ∧ d.r < nr) ∧ d.pos < pos.length) := by
+  refine ⟨readOov_iff ws ge cats pos nl nr lines [] T, ?_, fun l k d h => classifyUnk_entry ws ge cats pos nl nr l k d h⟩
+  intro h
+  obtain ⟨_, hT⟩ := (readOov_iff ws ge cats pos nl nr lines [] T).mp h
+  subst hT
+  refine ⟨nodup_keys_pushAll _ [] (by simp), fun k => ?_⟩
+  rw [findKey_pushAll]
+  simp [findKey]
+
+/-- the column splitters of the two readers: `split_whitespace` yields non-empty white-space-free columns whose
+concatenation is the line without its white space; `split(',')` yields at least one piece, no piece contains a comma, and
+the pieces joined by commas are the line -/
+theorem definition_columns_spec (ws : Char → Bool) (line : List Char) :
+    ((∀ w ∈ wordsW ws line, w ≠ [] ∧ ∀ c ∈ w, ws c = false) ∧
+      (wordsW ws line).flatten = line.filter (fun c => !ws c)) ∧
+    (Wire.splitOn ',' line ≠ [] ∧ (∀ w ∈ Wire.splitOn ',' line, ',' ∉ w) ∧ joinSep ',' (Wire.splitOn ',' line) = line) :=
+  ⟨words_spec ws line, splitOn_spec ',' line⟩
+
+/-- non-vacuity of the reader specifications on concrete files, decoded as the driver does and read with Unicode white
+space: a behaviour line with a hex-literal key, `+` sign, tab, U+3000 as a column separator, a comment and a range line;
+a duplicate key is rejected; an unk.def with two lines of one class, CRLF, a hex key and an id equal to the matrix size
+(accepted by the pinned `>`, rejected by the repaired `>=`); a line that is not UTF-8 makes the file unreadable -/
+example :
+    readCharPropW isWsU (lines "KANJI|0x4\t1 x +2 # c\n0x41 ALPHA\n\n  # c\nALL\u3000 0 1 0".toList) [] =
+      some [(4, ⟨4, true, false, 2⟩), (1073741823, ⟨1073741823, false, true, 0⟩)] ∧
+    readCharPropW isWsU (lines "KANJI 1 0 2\nKANJI|KANJI 0 0 0\n".toList) [] = none ∧
+    readCharPropW isWsU (lines "KANJI 1 0 4294967296\n".toList) [] = none ∧
+    readCharPropW Wire.isWs (lines "ALL\u3000 0 1 0".toList) [] = none := by
+  decide
+
+example :
+    let cats : List (Nat × CatInfo) := [(4, ⟨4, true, false, 2⟩), (32, ⟨32, true, true, 0⟩)]
+    let pos := [["N".toList, "a".toList, "*".toList, "*".toList, "*".toList, "*".toList]]
+    readOov isWsU true cats pos 3 3 (lines "KANJI,1,2,-5,N,a,*,*,*,*\r\nALPHA,0,0,7,N,a,*,*,*,*,extra\n 0x4 ,+2,0,0,N,a,*,*,*,*\n".toList) [] =
+      some [(4, [⟨1, 2, -5, 0⟩, ⟨2, 0, 0, 0⟩]), (32, [⟨0, 0, 7, 0⟩])] ∧
+    readOov isWsU true cats pos 3 3 (lines "KANJI,3,0,0,N,a,*,*,*,*\n".toList) [] = none ∧
+    (readOov isWsU false cats pos 3 3 (lines "KANJI,3,0,0,N,a,*,*,*,*\n".toList) []).isSome = true ∧
+    linesU (bytesToChars [35, 32, 255, 10]) = none ∧ linesU (bytesToChars [35, 237, 160, 128]) = none ∧
+    linesU (bytesToChars [35, 192, 128]) = none ∧ linesU (bytesToChars [35, 227, 129]) = none ∧
+    linesU (bytesToChars [227, 128, 128, 13, 10, 240, 159, 145, 141]) = some [[Char.ofNat 12288], [Char.ofNat 128077]] := by
+  decide
+
+/-! ### runs that fail: the calls made before the failure are part of the answer -/
+
+/-- **The builder whose answer includes the calls of a failing run is the builder of the theorems**: its outcome is
+`buildLattice`'s for every input, and on success its calls are exactly those of the recorded builder `buildLatticeT`
+(`recorded_builder_is_builder`).  The driver prints `buildLatticeP`. -/
+theorem failing_run_trace_is_builder (ps : List Provider) (lex : List Word) (buf : Buf) :
+    (buildLatticeP ps lex buf).2 = buildLattice ps lex buf ∧
+    ∀ nodes tr, buildLatticeT ps lex buf = .ok (nodes, tr) → buildLatticeP ps lex buf = (allCalls tr, .ok nodes) :=
+  ⟨buildLatticeP_outcome ps lex buf, fun nodes tr h => buildLatticeP_calls ps lex buf nodes tr h⟩
+
+/-- **Full statement: what the trace of a failing run is.**  For a well-formed buffer `build_lattice` can only fail with
+`EosBosDisconnect`; it fails inside the position loop, never in `connect_eos`, at a position `p` inside the text that has
+no dictionary word; the calls reported are those of the earlier positions followed by the calls at `p`: the complete
+provider list in configured order iff the class of the character let it run, each provider with an empty mask and an
+empty buffer and without result, and finally the extra call of the last provider — again empty mask, empty buffer, no
+result. -/
+theorem failing_run_trace_spec (ps : List Provider) (lex : List Word) (buf : Buf) (hwf : buf.WF) (cs : List Call) (k : String)
+    (h : buildLatticeP ps lex buf = (cs, .err k)) :
+    k = "Disconnect" ∧
+    ∃ p, p < buf.chars.length ∧ lexNodes lex buf p = [] ∧
+      ∃ pre cat loop c, cs = pre ++ (loop ++ [c]) ∧ buf.cats[p]? = some cat ∧ c.idx = ps.length - 1 ∧
+        loop.map (·.idx) = (if asksProviders cat then List.range ps.length else []) ∧
+        ∀ x ∈ loop ++ [c], x.out = [] ∧ x.offset = p ∧ x.created = 0 ∧ x.pre = 0 := by
+  obtain ⟨p, hp, pre, last, hcs, hstep⟩ := buildLatticeP_err ps lex buf hwf cs k h
+  obtain ⟨hk, hlex, cat, loop, c, hcat, hlast, hidx, hloop, hall⟩ := stepAtP_err ps lex buf p last k hstep
+  subst hlast
+  exact ⟨hk, p, hp, hlex, pre, cat, loop, c, hcs, hcat, hidx, hloop, hall⟩
+
+/-- non-vacuity of `hwf` for the buffer of the next example -/
+example : (⟨[97, 12354, 28450], [32, 64, 4], [1, 1, 1], [true, true, true]⟩ : Buf).WF :=
+  ⟨rfl, rfl, rfl, by
+    intro i c h
+    match i, h with
+    | 0, h => cases h; decide
+    | 1, h => cases h; decide
+    | 2, h => cases h; decide
+    | n + 3, h => simp at h⟩
+
+/-- non-vacuity: MeCab as the only provider on `a` `あ` `漢` with lines for ALPHA and HIRAGANA only — the run fails at
+position 2 after one fruitful call at 0, one at 1 and two fruitless calls at 2 -/
+example :
+    let cfg : MecabCfg := ⟨[(32, ⟨32, true, true, 0⟩), (64, ⟨64, false, false, 1⟩)], [(32, [⟨1, 1, 1, 0⟩]), (64, [⟨2, 2, 2, 0⟩])], false⟩
+    let buf : Buf := ⟨[97, 12354, 28450], [32, 64, 4], [1, 1, 1], [true, true, true]⟩
+    buildLatticeP [Provider.mecab cfg] [] buf =
+      ([⟨0, 0, 0, 0, [⟨0, 1, 1, 1, 1, true, 0⟩]⟩, ⟨0, 1, 0, 0, [⟨1, 2, 2, 2, 2, true, 0⟩]⟩, ⟨0, 2, 0, 0, []⟩, ⟨0, 2, 0, 0, []⟩],
+       .err "Disconnect") := by
   decide
 
 end C13
